@@ -4,6 +4,7 @@ import (
 	"encoding/json"
 	"errors"
 	"fmt"
+	"math"
 	"reflect"
 )
 
@@ -134,6 +135,9 @@ func (in *objIndex) UnmarshalJSON(data []byte) error {
 		in.uuids[uuid] = i
 	}
 	// we don't want to reuse an existing index
+	if in.i == math.MaxUint64 {
+		return fmt.Errorf("%w: object id %d leaves no identifier for new objects", ErrMalformedSchema, in.i)
+	}
 	in.i++
 
 	return nil
